@@ -272,6 +272,51 @@ func ApplyDefFault(def []byte, f DefFault) []byte {
 		// turn the encoded duplicate members into real duplicates
 		out = bytes.ReplaceAll(out, []byte(`\u0000dup"`), []byte(`"`))
 		return out
+	case "old_long_names":
+		// the definition as an older release could have stored it: names of results and categories had
+		// no length limit before 13.6 (Repl = the older spec version to label it with, "" = keep)
+		var root map[string]any
+		if json.Unmarshal(def, &root) != nil {
+			return def
+		}
+		if _, is13 := root["spec_version"].(string); !is13 {
+			return def
+		}
+		if f.Repl != "" {
+			root["spec_version"] = f.Repl
+		}
+		long := func(s string) string { return s + " " + strings.Repeat("and so on ", 9) }
+		nodes, _ := root["nodes"].([]any)
+		for _, n := range nodes {
+			nm, _ := n.(map[string]any)
+			acts, _ := nm["actions"].([]any)
+			for _, a := range acts {
+				am, _ := a.(map[string]any)
+				if am["type"] == "set_run_result" {
+					if v, ok := am["name"].(string); ok && v != "" {
+						am["name"] = long(v)
+					}
+					if v, ok := am["category"].(string); ok && v != "" {
+						am["category"] = long(v)
+					}
+				}
+			}
+			if r, _ := nm["router"].(map[string]any); r != nil {
+				if v, ok := r["result_name"].(string); ok && v != "" && f.Seed%2 == 0 {
+					r["result_name"] = long(v)
+				}
+				cats, _ := r["categories"].([]any)
+				for _, c := range cats {
+					if cm, _ := c.(map[string]any); cm != nil {
+						if v, ok := cm["name"].(string); ok && v != "" {
+							cm["name"] = long(v)
+						}
+					}
+				}
+			}
+		}
+		out, _ := json.Marshal(root)
+		return out
 	case "typeswap":
 		out := ApplyDefFault(def, DefFault{Kind: "replace_path", Path: f.Path, Repl: f.Repl})
 		if f.Path2 != "" {
@@ -542,10 +587,10 @@ func NewC16World(def *CorpusDef) *C16World {
 }
 
 // Consume serves the faulty bytes the ways a host consumes a stored definition.
-func (cw *C16World) Consume(faulty []byte, invariants bool) (out DefOutcome) {
+func (cw *C16World) Consume(faulty []byte, invariants, knownValid bool) (out DefOutcome) {
 	if invariants {
 		if p := guarded(func() {
-			out.Invariant, out.InvariantDetail = MigrationInvariants(faulty, func() { cw.Seams.UUIDs.Counter = 0 })
+			out.Invariant, out.InvariantDetail = MigrationInvariants(faulty, func() { cw.Seams.UUIDs.Counter = 0 }, knownValid)
 		}); p != "" {
 			// the consumers below meet the same panic and name it properly; this is the fallback
 			defer func() {
@@ -675,14 +720,20 @@ var _ = time.Now
 // kept in order, legacy entry node first, a current definition returned untouched, a second
 // migration a no-op, stepwise migration equal to migration in one go, and read -> marshal ->
 // read a fixpoint. It returns ("", "") when the bytes are rejected or every clause holds.
-func MigrationInvariants(src []byte, resetSeams func()) (kind, detail string) {
+func MigrationInvariants(src []byte, resetSeams func(), knownValid bool) (kind, detail string) {
 	resetSeams() // legacy migration draws UUIDs: every migration below starts from the same UUID stream
 	m1, err := migrations.MigrateToLatest(src, migrations.DefaultConfig)
 	if err != nil {
+		if knownValid {
+			return "valid-old-not-migrated", err.Error()
+		}
 		return "", ""
 	}
 	fl, err := definition.ReadFlow(m1, nil)
 	if err != nil {
+		if knownValid {
+			return "valid-old-not-loadable", err.Error()
+		}
 		return "", "" // whether the source was valid at its own version cannot be decided here
 	}
 	var s, m map[string]any
